@@ -109,6 +109,16 @@ def run(ctx):
                     want = int((w & rfc[fn]) == rfc[fn])
                     if not (isinstance(pf, EnumVal) and pf.v == "Ok" and pf.f[0] == want):
                         bad.append("header_buffer::has_flags(flags %#06x, %s) = %r" % (w, fn, pf))
+                # a union of flags is present only when every one of them is (and the empty set always is)
+                import itertools as _it
+                queries = [(0, "no flag")] + [(rfc[f1] | rfc[f2], "%s|%s" % (f1, f2)) for f1, f2 in _it.combinations(sorted(flag_names), 2)]
+                for q, qn in queries:
+                    m3 = Header12(words, flag_mask)
+                    pf = Evaluator(prog, m3.hooks()).call(B["peek_flags"], [("buffer",), q])
+                    want = int((w & q) == q)
+                    if not (isinstance(pf, EnumVal) and pf.v == "Ok" and pf.f[0] == want):
+                        bad.append("header_buffer::has_flags(flags %#06x, %s) = %r, expected %d: a set of flags is present only when "
+                                   "all of its bits are" % (w, qn, pf, want))
             if len(bad) > 12:
                 break
         # writer, every RCODE / OPCODE variant (codes above 15 included: their upper bits live in the OPT TTL, C09): the
